@@ -137,7 +137,7 @@ def run_unit(unit, repo, workdir, canary=True):
             res["rules"][k] = res["rules"].get(k, 0) + v
         if it["kind"] in ("fn", "fragment"):
             res["functions"].append(dict(file=it["file"], fn=it["name"], impl=it.get("impl"), line=it["src_line"], kind=it["kind"],
-                                         props=it.get("props", ""), gen_name=it.get("gen_name")))
+                                         props=it.get("props", ""), gen_name=it.get("gen_name"), requires=it.get("requires", "")))
             for e in it.get("edits", []):
                 if e["rule"] in ("R1", "R2", "R4", "R6", "R7", "R9", "R10", "REWRITE") and e["note"]:
                     res["edits"].append(f"{it['file']}:{e['src_line']} {e['rule']}: {e['note']}"[:300])
